@@ -36,6 +36,7 @@ class Trace:
         self.phase = ("pre", 0)
         self.fit_count = 0
         self.aborted = None
+        self.user_object = None
 
 
 def exc_info(e):
@@ -136,6 +137,27 @@ def build(scn, trace, fault=None, script=None):
         else:
             rec["y"] = float(np.asarray(ret).ravel()[0])
         return ret
+
+    # the target may be handed to BADS as a plain function, a callable object or a bound method; the object counts the
+    # calls it receives itself, so a library that silently calls a *copy* of the user's object is visible
+    how = scn["target"].get("callable", "function")
+    if how in ("object", "method"):
+        class UserModel:
+            def __init__(self, f):
+                self.f = f
+                self.received = 0
+
+            def __call__(self, x):
+                self.received += 1
+                return self.f(x)
+
+            def loss(self, x):
+                self.received += 1
+                return self.f(x)
+
+        model = UserModel(fun)
+        trace.user_object = model
+        fun = model if how == "object" else model.loss
 
     cons = None
     if scn.get("cons") is not None:
